@@ -1,7 +1,7 @@
-\* C09 batch tier, quick (see ScenQuick in MC_Reclaim.tla)
+\* calculateOnNode as found at the pinned commit (a pod without metrics is not added to the max(usage,request) sum): TLC finds BoundOK broken. Documentation only, not run by bin/check.
 SPECIFICATION Spec
 CONSTANTS
-  ChargeNoMetricInMaxUR = TRUE
+  ChargeNoMetricInMaxUR = FALSE
   ReqPolicySysUsage = FALSE
   Caps = {6}
   ThrStep = 50
